@@ -31,12 +31,18 @@ CASE_TIMEOUT = 300
 WALL = {"quick": 1200, "thorough": 10800}
 REQUIRED = {"faults_injected": 150, "faults_before_flush": 120, "faults_after_flush": 2, "stage_boundary_faults": 30,
             "line_points_enumerated": 80, "success_runs_checked": 3, "programs": 3,
-            "cli_killed": 10}
+            "cli_killed": 10, "queue_checks_before_serialisation": 100}
 NCHUNK = 8
 
 
 class InjectedFault(Exception):
     pass
+
+
+PRE_SERIALISATION = {"start", "reading-force-field", "reading-build-files", "reading-sequence", "reading-sequence-file", "mapping",
+                     "link-application", "modifications", "missing-link-search", "reading-topology", "preprocessing",
+                     "reading-coordinates", "template-generation", "ligand-annotation", "ligand-hand-back", "system-building",
+                     "back-mapping", "sequence-graph", "termini", "labels"}
 
 
 def plan(tier, seed):
@@ -222,6 +228,12 @@ def setup():
     attach.wrap_method(BuildSystem, "run_system", stage("system-building"))
     attach.wrap_method(Backmap, "run_system", stage("back-mapping"))
     attach.wrap_method(fw.DeferredFileWriter, "write", stage("flush", flush=True))
+    # deferred_open is a bound method of the singleton captured at import time: rebind the name where it is used
+    orig_do = fw.deferred_open
+    new_do = stage("open-deferred")(orig_do)
+    for mod in list(sys.modules.values()):
+        if mod is not None and getattr(mod, "deferred_open", None) is orig_do:
+            setattr(mod, "deferred_open", new_do)
     import polyply.src.gen_seq as gsm
     attach.wrap_function(gsm, "generate_seq_graph", stage("sequence-graph"))
     attach.wrap_function(gsm, "_apply_termini_modifications", stage("termini"))
@@ -441,6 +453,15 @@ def run_case(cid, rng, workdir):
                 raised = e
             fired = STATE["fired"]
             STATE["armed"] = None
+            # a fault at a stage before serialisation must not leave a pending write behind: whatever is queued in the
+            # deferred writer would be moved to this run's output path by the flush of any *later* run in the process
+            queued = [str(x[1]) for x in DeferredFileWriter().open_files]
+            if fired is not None and fired["stage"] in PRE_SERIALISATION and queued:
+                violation(res, "%s:write-queued-before-serialisation" % prog, "fault at %s (stage %s): the deferred writer already "
+                          "holds a pending write for %s" % (pt[:4], fired["stage"], queued),
+                          {"program": prog, "input": idx, "crash_point": list(pt[:4]), "stage": fired["stage"]})
+            if fired is not None and fired["stage"] in PRE_SERIALISATION:
+                bump(res, "queue_checks_before_serialisation")
             try:
                 DeferredFileWriter().close()       # process exit
             except Exception:
